@@ -62,6 +62,13 @@ static World *W(scpi_t *c) { return (World *) c->user_context; }
 
 static size_t cb_write(scpi_t *c, const char *data, size_t len) {
     World *w = W(c);
+    if (w->count_only) {
+        w->counted += len;
+        size_t keep = len < 32 ? len : 32;
+        w->out.append(data, keep);
+        w->canon += fmt("W<%zu bytes>\n", len);
+        return len;
+    }
     w->out.append(data, len);
     if (MsgRec *m = w->msg()) m->out.append(data, len);
     if (w->in_handler)
